@@ -120,6 +120,15 @@ impl Fam for k256::ecdsa::SigningKey {
         k256::ecdsa::SigningKey::from_slice(s).expect("valid secret")
     }
 }
+/// the key type behind `KeyType::Libsecp` / `FamId::Libsecp`
+#[cfg(feature = "libsecp")]
+pub type LibsecpKey = secp256k1::SecretKey;
+#[cfg(not(feature = "libsecp"))]
+pub type LibsecpKey = k256::ecdsa::SigningKey;
+/// name of the library build configuration this binary checks
+pub const BUILD_CONFIG: &str = if cfg!(feature = "libsecp") { "all-features, overflow checks and debug assertions on, log level Trace" } else { "plain release: without rust-secp256k1, overflow checks and debug assertions off, no logger" };
+
+#[cfg(feature = "libsecp")]
 impl Fam for secp256k1::SecretKey {
     fn make(_: FamId, s: &[u8; 32]) -> Self {
         secp256k1::SecretKey::from_slice(s).expect("valid secret")
